@@ -71,6 +71,12 @@ class Sigma(object):
         self.A_id = id(arch)
         self.S_id = id(swap)
         self.stats = list(r['stats']) if r['stats'] is not None else None
+        try:
+            # the statistics as the function reports them (the observable C15/C16 speak about), not the list in the closure
+            i = w.info()
+            self.stats = [i.hit, i.miss, i.load]
+        except Exception:      # noqa
+            pass
         self.queue = list(r['queue']) if r['queue'] is not None else None
         self.counter = dict(r['counter']) if r['counter'] is not None else None
 
